@@ -545,6 +545,594 @@ def densify(rng, pts):
     return out
 
 
+# ------------------------------------------------------------------ tiles that are no rectangles
+# A tile of `lat_polys` is a list of lattice points (simple polygon) or, for a tile that itself
+# has holes, a dict {'b': boundary, 'h': [hole, ...]}.
+def tile_parts(t):
+    if isinstance(t, dict):
+        return t['b'], t['h']
+    return t, []
+
+
+def tile_json(t):
+    if isinstance(t, dict):
+        return {'b': [list(p) for p in t['b']], 'h': [[list(p) for p in h] for h in t['h']]}
+    return [list(p) for p in t]
+
+
+def tile_from_json(t):
+    if isinstance(t, dict):
+        return {'b': [tuple(p) for p in t['b']], 'h': [[tuple(p) for p in h] for h in t['h']]}
+    return [tuple(p) for p in t]
+
+
+def tile_key(t):
+    b, hs = tile_parts(t)
+    return (tuple(map(tuple, b)),) + tuple(tuple(map(tuple, h)) for h in hs)
+
+
+def tile_cells(t):
+    """Unit cells of one lattice tile (boundary minus holes), exact even-odd at the cell centres."""
+    b, hs = tile_parts(t)
+    xs = [p[0] for p in b]
+    ys = [p[1] for p in b]
+    if not hs and len(b) == 4:
+        return set((x, y) for x in range(min(xs), max(xs)) for y in range(min(ys), max(ys)))
+    b2 = [(2 * x, 2 * y) for x, y in b]
+    hs2 = [[(2 * x, 2 * y) for x, y in h] for h in hs]
+    out = set()
+    for x in range(min(xs), max(xs)):
+        for y in range(min(ys), max(ys)):
+            c = (2 * x + 1, 2 * y + 1)
+            if point_in_poly(c, b2) == 1 and all(point_in_poly(c, h) == -1 for h in hs2):
+                out.add((x, y))
+    return out
+
+
+def outline_loops(cells):
+    """Boundary loops of a cell set without diagonal contacts, corner vertices only:
+    -> (outer loops, counter-clockwise; hole loops, clockwise) or None."""
+    cells = set(cells)
+    nxt = {}
+    ne = 0
+    for (x, y) in cells:
+        if (x, y - 1) not in cells:
+            nxt[(x, y)] = (x + 1, y)
+            ne += 1
+        if (x + 1, y) not in cells:
+            nxt[(x + 1, y)] = (x + 1, y + 1)
+            ne += 1
+        if (x, y + 1) not in cells:
+            nxt[(x + 1, y + 1)] = (x, y + 1)
+            ne += 1
+        if (x - 1, y) not in cells:
+            nxt[(x, y + 1)] = (x, y)
+            ne += 1
+    if ne != len(nxt):
+        return None                 # a vertex with two outgoing edges: diagonal contact
+    outers, holes = [], []
+    while nxt:
+        start = min(nxt)
+        lp = [start]
+        v = nxt.pop(start)
+        while v != start:
+            lp.append(v)
+            if v not in nxt:
+                return None
+            v = nxt.pop(v)
+        n = len(lp)
+        cor = [lp[i] for i in range(n)
+               if orient(lp[i - 1], lp[i], lp[(i + 1) % n]) != 0]
+        a2 = sum(cor[i - 1][0] * cor[i][1] - cor[i][0] * cor[i - 1][1] for i in range(len(cor)))
+        (outers if a2 > 0 else holes).append(cor)
+    return outers, holes
+
+
+def make_tile(cells):
+    """Lattice tile of a connected cell set without diagonal contacts (also of its complement)."""
+    if not cells or not connected(cells) or not no_pinch(cells):
+        return None
+    r = outline_loops(cells)
+    if r is None or len(r[0]) != 1:
+        return None
+    outers, holes = r
+    if holes:
+        return {'b': outers[0], 'h': holes}
+    return outers[0]
+
+
+def present_loop(lp, rev, k):
+    lp = list(lp)
+    if rev:
+        lp.reverse()
+    k %= len(lp)
+    return lp[k:] + lp[:k]
+
+
+def present(rng, t):
+    """Random orientation and start vertex for every loop of a tile."""
+    b, hs = tile_parts(t)
+    b2 = present_loop(b, rng.random() < 0.5, rng.randrange(len(b)))
+    if not hs:
+        return b2
+    hs2 = [present_loop(h, rng.random() < 0.5, rng.randrange(len(h))) for h in hs]
+    rng.shuffle(hs2)
+    return {'b': b2, 'h': hs2}
+
+
+def densify_tile(rng, t):
+    b, hs = tile_parts(t)
+    if not hs:
+        return densify(rng, b)
+    return {'b': densify(rng, b), 'h': [densify(rng, h) for h in hs]}
+
+
+def trun_stats(tiles):
+    """T-junction runs of a tiling as presented: over all (edge of a loop of a tile W, loop of
+    another tile T): the vertices of the T loop strictly inside the W edge, in the listed order.
+    -> (largest such number, pairs with >= 3 of them, of these pairs: listed in an order that is
+    neither ascending nor descending along the edge, i.e. the list starts in the middle of the run)."""
+    loops = []
+    for ti, t in enumerate(tiles):
+        b, hs = tile_parts(t)
+        for lp in [b] + list(hs):
+            loops.append((ti, lp))
+    best = runs = nonmono = 0
+    for wi, wl in loops:
+        for k in range(len(wl)):
+            a, b = wl[k - 1], wl[k]
+            ax = 1 if a[0] == b[0] else 0
+            c = a[1 - ax]
+            lo, hi = min(a[ax], b[ax]), max(a[ax], b[ax])
+            if hi - lo < 2:
+                continue
+            for ti, tl in loops:
+                if ti == wi:
+                    continue
+                seq = [p[ax] for p in tl if p[1 - ax] == c and lo < p[ax] < hi]
+                if len(seq) > best:
+                    best = len(seq)
+                if len(seq) >= 3:
+                    runs += 1
+                    srt = sorted(seq)
+                    if seq != srt and seq != srt[::-1]:
+                        nonmono += 1
+    return best, runs, nonmono
+
+
+def mid_run_starts(tiles, ci):
+    """Presentations (rev, k) of the boundary of tile ci for which some edge of another tile
+    receives >= 3 of its vertices in a non-monotone listed order."""
+    b, hs = tile_parts(tiles[ci])
+    out = []
+    for rev in (False, True):
+        for k in range(len(b)):
+            t2 = list(tiles)
+            t2[ci] = present_loop(b, rev, k) if not hs else {'b': present_loop(b, rev, k), 'h': hs}
+            # only runs caused by tile ci matter here
+            if _nonmono_from(t2, ci):
+                out.append((rev, k))
+    return out
+
+
+def _nonmono_from(tiles, ci):
+    tb = tile_parts(tiles[ci])[0]
+    for wi, t in enumerate(tiles):
+        if wi == ci:
+            continue
+        b, hs = tile_parts(t)
+        for wl in [b] + list(hs):
+            for k in range(len(wl)):
+                a, bb = wl[k - 1], wl[k]
+                ax = 1 if a[0] == bb[0] else 0
+                c = a[1 - ax]
+                lo, hi = min(a[ax], bb[ax]), max(a[ax], bb[ax])
+                if hi - lo < 2:
+                    continue
+                seq = [p[ax] for p in tb if p[1 - ax] == c and lo < p[ax] < hi]
+                if len(seq) >= 3:
+                    srt = sorted(seq)
+                    if seq != srt and seq != srt[::-1]:
+                        return True
+    return False
+
+
+def blk(x0, y0, x1, y1):
+    return set((x, y) for x in range(x0, x1) for y in range(y0, y1))
+
+
+def dihedral(k):
+    def f(p):
+        x, y = p
+        if k & 4:
+            x = -x
+        for _ in range(k & 3):
+            x, y = -y, x
+        return (x, y)
+    return f
+
+
+def xf_cells(f, cells):
+    out = set()
+    for x, y in cells:
+        cx, cy = f((2 * x + 1, 2 * y + 1))
+        out.add(((cx - 1) // 2, (cy - 1) // 2))
+    return out
+
+
+def void_components(cells):
+    """Enclosed voids of a cell set as a list of cell sets."""
+    xs = [c[0] for c in cells]
+    ys = [c[1] for c in cells]
+    x0, x1, y0, y1 = min(xs) - 1, max(xs) + 1, min(ys) - 1, max(ys) + 1
+    free = set((x, y) for x in range(x0, x1 + 1) for y in range(y0, y1 + 1)) - set(cells)
+    comps = []
+    while free:
+        s = min(free)
+        free.discard(s)
+        comp = {s}
+        st = [s]
+        while st:
+            x, y = st.pop()
+            for d in ((1, 0), (-1, 0), (0, 1), (0, -1)):
+                c = (x + d[0], y + d[1])
+                if c in free:
+                    free.discard(c)
+                    comp.add(c)
+                    st.append(c)
+        if (x0, y0) not in comp:
+            comps.append(comp)
+    return comps
+
+
+def components(cells):
+    left = set(cells)
+    out = []
+    while left:
+        s = min(left)
+        left.discard(s)
+        comp = {s}
+        st = [s]
+        while st:
+            x, y = st.pop()
+            for d in ((1, 0), (-1, 0), (0, 1), (0, -1)):
+                c = (x + d[0], y + d[1])
+                if c in left:
+                    left.discard(c)
+                    comp.add(c)
+                    st.append(c)
+        out.append(comp)
+    return out
+
+
+def gen_comb(rng):
+    """A long straight wall tile; against one of its long edges a comb (U / E / comb with 2..4
+    teeth, optionally with a stair-shaped back) whose teeth put 2 vertices each on that ONE wall
+    edge; between the teeth enclosed voids or filler tiles of different sizes; on the other long
+    edge rectangles of different sizes stacked, or a second comb.
+    -> (cell sets of the tiles, index of the comb, void mode histogram) or None."""
+    wt = rng.choice([1, 1, 2])
+    tl = rng.choice([1, 1, 1, 2])
+    nteeth = rng.choice([2, 2, 3, 3, 3, 4])
+    segs = []
+    y = 0
+    for i in range(nteeth):
+        if i:
+            h = rng.choice([1, 1, 1, 2])
+            segs.append(('G', y, h))
+            y += h
+        h = rng.choice([1, 1, 2])
+        segs.append(('T', y, h))
+        y += h
+    L = y
+    a, b = rng.choice([0, 1, 1, 2]), rng.choice([0, 1, 1, 2])
+    wall = blk(-wt, -a, 0, L + b)
+    stair = rng.random() < 0.4
+    st0 = rng.choice([1, 1, 2])
+    up = rng.random() < 0.5
+    comb = set()
+    for yy in range(L):
+        st = st0
+        if stair:
+            st = 1 + ((yy if up else L - 1 - yy) * 3) // L
+        comb |= blk(tl, yy, tl + st, yy + 1)
+    for kind, y0, h in segs:
+        if kind == 'T':
+            comb |= blk(0, y0, tl, y0 + h)
+    tiles = [wall, comb]
+    modes = {}
+    for kind, y0, h in segs:
+        if kind != 'G':
+            continue
+        gap = blk(0, y0, tl, y0 + h)
+        mode = rng.choice(['void', 'void', 'void', 'void', 'fill', 'stack', 'half'])
+        if mode == 'half' and len(gap) < 2:
+            mode = 'void'
+        modes[mode] = modes.get(mode, 0) + 1
+        if mode == 'fill':
+            tiles.append(gap)
+        elif mode == 'stack':
+            tiles.extend({c} for c in sorted(gap))
+        elif mode == 'half':
+            if tl == 2 and (h == 1 or rng.random() < 0.5):
+                x = rng.choice([0, 1])
+                tiles.append(set(c for c in gap if c[0] == x))
+            else:
+                yk = rng.choice([y0, y0 + h - 1])
+                tiles.append(set(c for c in gap if c[1] == yk))
+    # the other long edge of the wall
+    other = rng.choice(['none', 'rects', 'rects', 'comb'])
+    if other == 'rects':
+        yy = -a
+        while yy < L + b:
+            h = min(rng.choice([1, 1, 2, 3]), L + b - yy)
+            if rng.random() < 0.65:
+                w = rng.choice([1, 2, 3])
+                tiles.append(blk(-wt - w, yy, -wt, yy + h))
+            yy += h
+    elif other == 'comb':
+        dy = rng.choice([0, 0, 1]) if b >= 1 else 0
+        tiles.append(set((-wt - 1 - x, yy + dy) for x, yy in comb))
+    return tiles, 1, modes
+
+
+def add_outside_rects(rng, used, keep_free, n):
+    """Up to n rectangles edge-attached to the cell set `used` from outside (no diagonal contacts,
+    nothing inside the cells `keep_free`)."""
+    out = []
+    used = set(used)
+    for _ in range(n * 6):
+        if len(out) >= n:
+            break
+        xs = [c[0] for c in used]
+        ys = [c[1] for c in used]
+        w, h = rng.randint(1, 3), rng.randint(1, 3)
+        x0 = rng.randint(min(xs) - w, max(xs) + 1)
+        y0 = rng.randint(min(ys) - h, max(ys) + 1)
+        r = blk(x0, y0, x0 + w, y0 + h)
+        if r & used or r & keep_free:
+            continue
+        if not any((x + dx, y + dy) in used for x, y in r
+                   for dx, dy in ((1, 0), (-1, 0), (0, 1), (0, -1))):
+            continue
+        if not no_pinch(used | r):
+            continue
+        out.append(r)
+        used |= r
+    return out
+
+
+def gen_ring(rng):
+    """Tiles that themselves have holes: a polyomino with 1..2 enclosed rectangular voids given as
+    ONE tile (boundary + holes), every hole left void / filled by one tile / by several
+    rectangles / partly filled / with an island / filled by a second ring tile; optionally the
+    ring is split along a line through a hole into C-shaped simple tiles; rectangles attached
+    outside.  -> (cell sets of the tiles, has_island, modes) or None."""
+    base = None
+    if rng.random() < 0.5:
+        for _ in range(10):
+            base = gen_cells(rng, 'void')
+            if base:
+                break
+    else:
+        # rectangular ring, walls 1..2 cells thick, hole up to 5 x 5, sometimes a second hole
+        w, h = rng.choice([1, 1, 2, 3, 3, 4, 5]), rng.choice([1, 1, 2, 3, 3, 4, 5])
+        l, r_, b_, t_ = [rng.choice([1, 1, 2]) for _ in range(4)]
+        base = blk(0, 0, l + w + r_, b_ + h + t_) - blk(l, b_, l + w, b_ + h)
+        if rng.random() < 0.3:
+            w2 = rng.randint(1, 3)
+            base |= blk(l + w + r_, 0, l + w + r_ + w2 + 1, b_ + h + t_)
+            y0 = rng.randint(1, b_ + h + t_ - 2)
+            base -= blk(l + w + r_, y0, l + w + r_ + w2, rng.randint(y0 + 1, b_ + h + t_ - 1))
+    if not base or not no_pinch(base) or not connected(base):
+        return None
+    comps = void_components(base)
+    if not comps:
+        return None
+    tiles = []
+    modes = {}
+    island = False
+    keep_free = set()
+    for comp in comps:
+        xs = [c[0] for c in comp]
+        ys = [c[1] for c in comp]
+        w, h = max(xs) - min(xs) + 1, max(ys) - min(ys) + 1
+        mode = rng.choice(['void', 'void', 'void', 'fill', 'fillcut', 'partial', 'partial',
+                           'island', 'nested'])
+        if mode in ('island', 'nested') and (w < 3 or h < 3):
+            mode = rng.choice(['void', 'fill', 'partial'])
+        if mode == 'partial' and len(comp) < 2:
+            mode = rng.choice(['void', 'fill'])
+        if mode == 'fill':
+            tiles.append(set(comp))
+        elif mode == 'fillcut':
+            tiles.extend(blk(*r) for r in cut_rectangles(rng, comp))
+        elif mode == 'partial':
+            rects = []
+            for _t in range(8):
+                rects = cut_rectangles(rng, comp)
+                if len(rects) >= 2:
+                    break
+            if len(rects) < 2:
+                mode = 'fill'
+                tiles.append(set(comp))
+            else:
+                rng.shuffle(rects)
+                keep = rects[:rng.randint(1, len(rects) - 1)]
+                kept = set()
+                for r in keep:
+                    kept |= blk(*r)
+                if no_pinch(base | kept):
+                    tiles.extend(blk(*r) for r in keep)
+                    keep_free |= comp - kept
+                else:
+                    mode = 'void'
+                    keep_free |= comp
+        elif mode == 'island':
+            x0 = rng.randint(min(xs) + 1, max(xs) - 1)
+            y0 = rng.randint(min(ys) + 1, max(ys) - 1)
+            x1 = rng.randint(x0, max(xs) - 1)
+            y1 = rng.randint(y0, max(ys) - 1)
+            tiles.append(blk(x0, y0, x1 + 1, y1 + 1))
+            keep_free |= comp - tiles[-1]
+            island = True
+        elif mode == 'nested':
+            x0 = rng.randint(min(xs) + 1, max(xs) - 1)
+            y0 = rng.randint(min(ys) + 1, max(ys) - 1)
+            x1 = rng.randint(x0, max(xs) - 1)
+            y1 = rng.randint(y0, max(ys) - 1)
+            inner = blk(x0, y0, x1 + 1, y1 + 1)
+            tiles.append(comp - inner)
+            if rng.random() < 0.4:
+                tiles.append(inner)
+                mode = 'nested-filled'
+            else:
+                keep_free |= inner
+        else:
+            keep_free |= comp
+        modes[mode] = modes.get(mode, 0) + 1
+    ring = [set(base)]
+    if rng.random() < 0.35:
+        # cut the ring along a lattice line through (or along a side of) one hole
+        comp = rng.choice(comps)
+        ax = rng.randrange(2)
+        vs = [c[ax] for c in comp]
+        cpos = rng.randint(min(vs), max(vs) + 1)
+        parts = components(set(c for c in base if c[ax] < cpos)) + \
+            components(set(c for c in base if c[ax] >= cpos))
+        if len(parts) >= 2 and all(make_tile(p) is not None for p in parts):
+            ring = parts
+            modes['ring-split'] = modes.get('ring-split', 0) + 1
+    tiles = ring + tiles
+    used = set()
+    for t in tiles:
+        used |= t
+    tiles.extend(add_outside_rects(rng, used, keep_free, rng.choice([0, 1, 1, 2, 3])))
+    return tiles, island, modes
+
+
+def cut_polyominoes(rng, cells):
+    """Partition a cell set into connected polyomino tiles without diagonal contacts."""
+    left = set(cells)
+    tiles = []
+    if rng.random() < 0.7:
+        # a long straight wall tile first: a maximal run of cells in one row / column
+        ax = rng.randrange(2)
+        runs = []
+        for c in sorted(left):
+            prev = (c[0] - 1, c[1]) if ax == 0 else (c[0], c[1] - 1)
+            if prev in left:
+                continue
+            run = [c]
+            while True:
+                n = (run[-1][0] + 1, run[-1][1]) if ax == 0 else (run[-1][0], run[-1][1] + 1)
+                if n not in left:
+                    break
+                run.append(n)
+            if len(run) >= 4:
+                runs.append(run)
+        if runs:
+            run = rng.choice(runs)
+            tiles.append(set(run))
+            left -= tiles[-1]
+            # a comb against the wall where the cells allow it: spine in the second row next to
+            # the wall, teeth in the first row (the cells between the teeth go to other tiles)
+            for sg in rng.sample([1, -1], 2):
+                off = (0, sg) if ax == 0 else (sg, 0)
+                ok = [i for i, c in enumerate(run)
+                      if (c[0] + 2 * off[0], c[1] + 2 * off[1]) in left]
+                spans = []
+                for i in ok:
+                    if spans and spans[-1][-1] == i - 1:
+                        spans[-1].append(i)
+                    else:
+                        spans.append([i])
+                spans = [sp for sp in spans if len(sp) >= 3]
+                if not spans:
+                    continue
+                sp = rng.choice(spans)
+                cand = [i for i in sp if (run[i][0] + off[0], run[i][1] + off[1]) in left]
+                teeth = []
+                for i in cand:
+                    if (not teeth or i - teeth[-1] >= 2 or rng.random() < 0.3) \
+                            and rng.random() < 0.8:
+                        teeth.append(i)
+                if len(teeth) < 2 or teeth[-1] - teeth[0] < 2:
+                    continue
+                blob = set((run[i][0] + 2 * off[0], run[i][1] + 2 * off[1])
+                           for i in range(teeth[0], teeth[-1] + 1))
+                blob |= set((run[i][0] + off[0], run[i][1] + off[1]) for i in teeth)
+                if make_tile(blob) is not None:
+                    tiles.append(blob)
+                    left -= blob
+                    break
+    branchy = rng.random() < 0.7
+    while left:
+        c = rng.choice(sorted(left))
+        target = rng.choice([1, 2, 3, 4, 5, 6, 8, 10, 14])
+        blob = {c}
+        front = [c]
+        for _ in range(target * 6):
+            if len(blob) >= target:
+                break
+            x, y = rng.choice(front)
+            dx, dy = rng.choice([(1, 0), (-1, 0), (0, 1), (0, -1)])
+            n = (x + dx, y + dy)
+            if n in left and n not in blob:
+                if branchy and rng.random() < 0.8 and sum(
+                        1 for ex, ey in ((1, 0), (-1, 0), (0, 1), (0, -1), (1, 1), (1, -1),
+                                         (-1, 1), (-1, -1)) if (n[0] + ex, n[1] + ey) in blob) > 2:
+                    continue        # keeps the tile thin: combs, snakes, trees
+                blob.add(n)
+                front.append(n)
+        if make_tile(blob) is None:
+            blob = {c}
+        left -= blob
+        tiles.append(blob)
+    return tiles
+
+
+def gen_polytiling(rng, kind):
+    """kind: comb | ring | polypart -> tiling of polyomino tiles (unpresented lattice tiles)."""
+    island = False
+    carrier = None
+    modes = {}
+    if kind == 'comb':
+        r = gen_comb(rng)
+        if r is None:
+            return None
+        tcells, carrier, modes = r
+        f = dihedral(rng.randrange(8))
+        tcells = [xf_cells(f, t) for t in tcells]
+    elif kind == 'ring':
+        r = gen_ring(rng)
+        if r is None:
+            return None
+        tcells, island, modes = r
+    else:
+        cells = gen_cells(rng, rng.choice(['solid', 'solid', 'void']))
+        if not cells:
+            return None
+        tcells = cut_polyominoes(rng, cells)
+    tiles = [make_tile(t) for t in tcells]
+    if any(t is None for t in tiles) or len(tiles) < 2:
+        return None
+    cells = set()
+    n = 0
+    for t in tcells:
+        cells |= t
+        n += len(t)
+    if n != len(cells) or not no_pinch(cells):
+        return None
+    s = rng.choice([0.5, 1.0, 2.5, 3.0, 8.0])
+    theta = 0.0 if rng.random() < 0.6 else rng.uniform(0, 2 * math.pi)
+    fr = Frame(s, rng.randint(-40, 40) / 4.0, rng.randint(-40, 40) / 4.0, theta)
+    tol = rng.choice([1e-3, 2e-3, 5e-3, 1e-2])
+    return {'cells': sorted(cells), 'tiles': tiles, 'carrier': carrier, 'frame': fr, 'tol': tol,
+            'kind': kind, 'island': island, 'modes': modes, 'voids': enclosed_voids(cells),
+            'holed': sum(1 for t in tiles if isinstance(t, dict))}
+
+
 def judge_region(loops, cells, fr, tol, site, faces=None):
     """loops: returned loops as lists of world 2D float tuples.  Exact even-odd raster.
     faces: optional list of lists of loop indices [boundary, hole, ...]: then a point is enclosed
@@ -604,7 +1192,13 @@ def judge_region(loops, cells, fr, tol, site, faces=None):
 
 
 def run_boundary(lat_polys, fr, tol):
-    polys = [Polygon2D([Point2D(*fr.to_world(i, j)) for i, j in lp]) for lp in lat_polys]
+    # joined_intersected_boundary takes simple polygons only: a tile that has holes is handed over
+    # the way join_coplanar_faces itself does it, its boundary and its holes as separate polygons
+    polys = []
+    for t in lat_polys:
+        b, hs = tile_parts(t)
+        for lp in [b] + list(hs):
+            polys.append(Polygon2D([Point2D(*fr.to_world(i, j)) for i, j in lp]))
     res = Polygon2D.joined_intersected_boundary(polys, tol)
     return [[(float(v.x), float(v.y)) for v in p.vertices] for p in res]
 
@@ -617,9 +1211,18 @@ def make_plane(pl):
 def run_faces(lat_polys, fr, tol, pl):
     plane = make_plane(pl)
     faces = []
-    for lp in lat_polys:
+    for ti, t in enumerate(lat_polys):
+        lp, hs = tile_parts(t)
         pts = [plane.xy_to_xyz(Point2D(*fr.to_world(i, j))) for i, j in lp]
-        faces.append(Face3D(pts))
+        if not hs:
+            faces.append(Face3D(pts))
+            continue
+        holes = [[plane.xy_to_xyz(Point2D(*fr.to_world(i, j))) for i, j in h] for h in hs]
+        # plane given (as Face3D.from_dict / from_extrusion do) or derived from the boundary
+        if (len(lp) + ti) % 2:
+            faces.append(Face3D(pts, plane, holes))
+        else:
+            faces.append(Face3D(pts, None, holes))
     res = Face3D.join_coplanar_faces(faces, tol)
     loops, groups = [], []
     for f in res:
@@ -657,12 +1260,8 @@ def judge_tiling(site, lat_polys, cells, fr, tol, pl=None, face_sem=True):
 
 def cells_of(lat_polys):
     cs = set()
-    for lp in lat_polys:
-        xs = [p[0] for p in lp]
-        ys = [p[1] for p in lp]
-        for x in range(min(xs), max(xs)):
-            for y in range(min(ys), max(ys)):
-                cs.add((x, y))
+    for t in lat_polys:
+        cs |= tile_cells(t)
     return cs
 
 
@@ -682,7 +1281,16 @@ def shrink_tiling(site, lat_polys, fr, tol, pl, clause, deadline):
 
 
 def rand_plane(rng):
-    k = rng.choice(['horizontal', 'vertical', 'tilted', 'tilted'])
+    k = rng.choice(['horizontal', 'vertical', 'tilted', 'tilted', 'rational'])
+    if k == 'rational':
+        # exact unit normals (Pythagorean quadruples), dyadic origin
+        q = list(rng.choice([(1, 2, 2, 3), (2, 3, 6, 7), (1, 4, 8, 9), (4, 4, 7, 9), (2, 6, 9, 11),
+                             (6, 6, 7, 11), (3, 4, 12, 13), (0, 3, 4, 5)]))
+        d = q.pop()
+        rng.shuffle(q)
+        n = tuple(rng.choice([-1, 1]) * c / float(d) for c in q)
+        o = (rng.randint(-80, 80) / 4.0, rng.randint(-80, 80) / 4.0, rng.randint(-80, 80) / 4.0)
+        return k, (n, o)
     if k == 'horizontal':
         n = rng.choice([(0, 0, 1), (0, 0, -1)])
     elif k == 'vertical':
@@ -707,6 +1315,36 @@ PROBE_TILINGS = [
 ]
 
 
+# a long wall with an E-shaped / a U-shaped tile against it (enclosed 1x1 voids between the teeth):
+# every cyclic start and both orientations of the comb, wall listed before and after it
+PROBE_COMBS = [
+    [blk(0, 0, 1, 7), blk(2, 1, 3, 6) | {(1, 1), (1, 3), (1, 5)}],
+    [blk(0, -1, 2, 5), blk(3, 0, 4, 4) | {(2, 0), (2, 3)}, {(2, 1)}],
+]
+# tiles that have holes: hole stays void (+ a neighbour outside) / filled by one tile / partly
+# filled / filled by a second ring whose hole stays void / two holes, one filled
+PROBE_RINGS = [
+    [blk(0, 0, 3, 3) - {(1, 1)}, blk(3, 0, 4, 2)],
+    [blk(0, 0, 3, 3) - {(1, 1)}, {(1, 1)}],
+    [blk(0, 0, 4, 4) - blk(1, 1, 3, 3), blk(1, 1, 3, 2)],
+    [blk(0, 0, 5, 5) - blk(1, 1, 4, 4), blk(1, 1, 4, 4) - {(2, 2)}],
+    [blk(0, 0, 5, 3) - {(1, 1), (3, 1)}, {(3, 1)}, blk(5, 1, 6, 3)],
+]
+PROBE_PLANES = [((0.0, 0.0, 1.0), (0.0, 0.0, 0.0)), ((1.0, 0.0, 0.0), (2.0, -1.0, 0.5)),
+                ((2 / 7.0, -3 / 7.0, 6 / 7.0), (-3.25, 4.0, 1.5))]
+S2D = 'Polygon2D.joined_intersected_boundary'
+S3D = 'Face3D.join_coplanar_faces'
+
+
+def tiling_cfg(kind, lps):
+    """Configuration part of a failure signature."""
+    if any(isinstance(t, dict) for t in lps):
+        return 'tiles with holes'
+    if kind in ('comb', 'ring', 'polypart'):
+        return 'polyomino tiles'
+    return 'polyomino' if kind in ('solid', 'void') else 'pinched-or-disconnected'
+
+
 # ================================================================== run
 def run(ctx):
     seed = ctx.seed
@@ -720,7 +1358,16 @@ def run(ctx):
             'soup_with_junction(deg>=3)': 0, 'soup_jittered': 0, 'soup_uncertified': 0,
             'tiling_kind': {}, 'tiling_rects': {}, 'tiling_cells': {},
             'tiling_tjunctions': {}, 'tiling_rotated': 0, 'tiling_plane': {}, 'tiling_voids': {},
-            'faces_densified': 0, 'generator_rejects': 0, 'probe_collinear_walls': 0}
+            'faces_densified': 0, 'generator_rejects': 0, 'probe_collinear_walls': 0,
+            'probe_comb_presentations': 0, 'probe_holed_tiles': 0,
+            'poly_kind': {}, 'poly_tiles': {}, 'poly_modes': {}, 'poly_presentations': 0,
+            'poly_max_tvertices_on_one_edge': {}, 'poly_cases_with_run>=3': 0,
+            'poly_presentations_with_run>=3': 0,
+            'poly_presentations_run_listed_non_monotone': 0,
+            'poly_cases_all_cyclic_starts_both_orientations': 0,
+            'poly_cases_with_holed_tile': 0, 'poly_holed_tiles_fed_to_faces': 0,
+            'poly_holed_tiles_fed_as_loops_2d': 0, 'poly_ring_split_into_simple_tiles': 0,
+            'poly_enclosed_voids': {}, 'poly_seconds': 0.0}
 
     def bump(d, k, n=1):
         d[k] = d.get(k, 0) + n
@@ -757,6 +1404,73 @@ def run(ctx):
                         'plane': None if plane is None else [[float(c).hex() for c in plane[0]],
                                                              [float(c).hex() for c in plane[1]]],
                         'seed_info': {'probe': pi, 'k': k}})
+
+    def tiling_failure(site, kind, lps, fr, tol, plane, clause, detail, seed_info, island=False):
+        small = lps
+        if not clause.startswith('raises'):
+            small = shrink_tiling(site, lps, fr, tol, plane, clause, min(t_end, time.time() + 8))
+            r2 = judge_tiling(site, small, cells_of(small), fr, tol, plane)
+            d2 = [b for b in r2 if b[0] == clause]
+            detail = d2[0][1] if d2 else detail
+        sig = '%s|%s|%s' % (site, clause, tiling_cfg(kind, small))
+        if island and clause == 'region' and site.startswith('Face3D') and \
+                not judge_tiling(site, small, cells_of(small), fr, tol, plane, face_sem=False):
+            # right by even-odd nesting, wrong as faces: the island became a hole
+            sig = 'Face3D.join_coplanar_faces|island inside a void merged as hole'
+        add_failure(sig, {
+            'what': '%s(%d tiles %r, cell %g, rotation %.4g, tol=%r): %s'
+            % (site.split('.')[1], len(small), [tile_json(p) for p in small][:6],
+               fr.s, fr.theta, tol, detail),
+            'kind': 'tiling', 'site': site, 'lat_polys': [tile_json(p) for p in small],
+            'frame': fr.as_list(), 'frame_hex': [float(x).hex() for x in fr.as_list()],
+            'tol_hex': float(tol).hex(), 'clause': clause,
+            'plane': None if plane is None else [[float(c).hex() for c in plane[0]],
+                                                 [float(c).hex() for c in plane[1]]],
+            'seed_info': seed_info})
+
+    # ---- deterministic probes (every seed) of the T-junction runs and of tiles with holes
+    prng = random.Random('%s/c18/probe' % seed)
+    for pi, tcells in enumerate(PROBE_COMBS):
+        base = [make_tile(t) for t in tcells]
+        cells = sorted(cells_of(base))
+        nb = len(base[1])
+        for rev in (False, True):
+            for k in range(nb):
+                if not thorough and pi == 1 and (k + rev) % 2:
+                    continue
+                lps = [present(prng, t) for t in base]
+                lps[1] = present_loop(base[1], rev, k)
+                order = list(range(len(lps)))
+                prng.shuffle(order)
+                if (k + rev) % 2 != (order.index(0) < order.index(1)):
+                    i0, i1 = order.index(0), order.index(1)
+                    order[i0], order[i1] = order[i1], order[i0]
+                lps = [lps[i] for i in order]
+                fr = Frame(1.0 if pi == 0 else 2.5, 0.0, 0.0, 0.0 if k % 3 else 0.3 * (k + 1))
+                for site, plane in ((S2D, None), (S3D, PROBE_PLANES[(k + pi) % 3])):
+                    r = judge_tiling(site, lps, cells, fr, 0.01, plane)
+                    evaluations += 1
+                    bump(hist, 'probe_comb_presentations')
+                    nontrivial.add((site, 'probe-comb', pi, rev, k))
+                    for clause, detail in r[:1]:
+                        tiling_failure(site, 'comb', lps, fr, 0.01, plane, clause, detail,
+                                       {'probe_comb': pi, 'rev': rev, 'k': k})
+    for pi, tcells in enumerate(PROBE_RINGS):
+        base = [make_tile(t) for t in tcells]
+        cells = sorted(cells_of(base))
+        for k in range(6 if thorough else 3):
+            lps = [present(prng, t) for t in base]
+            prng.shuffle(lps)
+            fr = Frame(3.0 if pi % 2 else 0.5, 1.25, -2.0, 0.0 if k % 2 == 0 else 0.7 * k + pi)
+            fl = lps if k % 3 else [densify_tile(prng, t) for t in lps]
+            for site, plane, q in ((S2D, None, lps), (S3D, PROBE_PLANES[k % 3], fl)):
+                r = judge_tiling(site, q, cells, fr, 0.01, plane)
+                evaluations += 1
+                bump(hist, 'probe_holed_tiles')
+                nontrivial.add((site, 'probe-ring', pi, k))
+                for clause, detail in r[:1]:
+                    tiling_failure(site, 'ring', q, fr, 0.01, plane, clause, detail,
+                                   {'probe_ring': pi, 'k': k})
 
     case_no = 0
     while time.time() < t_end:
@@ -811,7 +1525,86 @@ def run(ctx):
                     'clause': clause, 'seed_info': {'seed': seed, 'case': case_no - 1}})
             continue
         # ------------------------------ tilings
-        kind = rng.choice(['solid', 'solid', 'void', 'void', 'pinch', 'two', 'island'])
+        kind = rng.choice(['solid', 'solid', 'void', 'void', 'pinch', 'two', 'island',
+                           'comb', 'comb', 'ring', 'ring', 'polypart'])
+        if kind in ('comb', 'ring', 'polypart'):
+            # ------------------------------ tilings by polyomino tiles (T-junction runs, holes)
+            t0 = time.time()
+            tl = gen_polytiling(rng, kind)
+            if tl is None:
+                bump(hist, 'generator_rejects')
+                continue
+            fr, tol, cells, tiles = tl['frame'], tl['tol'], tl['cells'], tl['tiles']
+            bump(hist['poly_kind'], kind)
+            bump(hist['poly_tiles'], '%d-%d' % (len(tiles) // 4 * 4, len(tiles) // 4 * 4 + 3))
+            bump(hist['poly_enclosed_voids'], min(tl['voids'], 5))
+            for m, c in tl['modes'].items():
+                bump(hist['poly_modes'], '%s:%s' % (kind, m), c)
+            if 'ring-split' in tl['modes']:
+                hist['poly_ring_split_into_simple_tiles'] += 1
+            if tl['holed']:
+                hist['poly_cases_with_holed_tile'] += 1
+            if fr.theta != 0.0:
+                hist['tiling_rotated'] += 1
+            pk, pl = rand_plane(rng)
+            bump(hist['tiling_plane'], pk)
+            # presentations of the tile that carries the run: all cyclic starts and both
+            # orientations for small tiles, else a sample that contains starts inside the run
+            ci = tl['carrier']
+            pres = [None]
+            if ci is not None:
+                nb = len(tile_parts(tiles[ci])[0])
+                allp = [(rev, k) for rev in (False, True) for k in range(nb)]
+                u = rng.random()
+                if (thorough and (nb <= 12 or (nb <= 28 and u < 0.3))) or \
+                        (not thorough and u < (0.5 if nb <= 8 else 0.12 if nb <= 12 else 0.0)):
+                    pres = allp
+                    hist['poly_cases_all_cyclic_starts_both_orientations'] += 1
+                else:
+                    mid = mid_run_starts(tiles, ci)
+                    ns = 6 if thorough else 2
+                    pres = rng.sample(mid, min(len(mid), ns - ns // 2)) if mid else []
+                    pres += rng.sample(allp, ns - len(pres))
+            elif kind == 'ring' and rng.random() < 0.5:
+                pres = [None, None]
+            best_all = 0
+            for pr in pres:
+                lps = [present(rng, t) for t in tiles]
+                if pr is not None:
+                    lps[ci] = present_loop(tiles[ci], pr[0], pr[1])
+                rng.shuffle(lps)
+                best, runs, nonmono = trun_stats(lps)
+                best_all = max(best_all, best)
+                hist['poly_presentations'] += 1
+                if best >= 3:
+                    hist['poly_presentations_with_run>=3'] += 1
+                if nonmono:
+                    hist['poly_presentations_run_listed_non_monotone'] += 1
+                fl = lps
+                if rng.random() < 0.4:
+                    fl = [densify_tile(rng, t) for t in lps]
+                    hist['faces_densified'] += 1
+                hist['poly_holed_tiles_fed_to_faces'] += tl['holed']
+                hist['poly_holed_tiles_fed_as_loops_2d'] += tl['holed']
+                if len(samples) < 8 and (best >= 3 or tl['holed']) and \
+                        sum(1 for q in samples if q.get('kind') == 'polyomino tiling') < 3:
+                    samples.append({'kind': 'polyomino tiling', 'generator': kind,
+                                    'tiles': [tile_json(t) for t in lps], 'frame': fr.as_list(),
+                                    'tol': tol, 'max_tvertices_on_one_edge': best,
+                                    'run_listed_non_monotone': bool(nonmono)})
+                for site, q, plane in ((S2D, lps, None), (S3D, fl, pl)):
+                    r = judge_tiling(site, q, cells, fr, tol, plane)
+                    evaluations += 1
+                    if best >= 3 or tl['holed'] or tl['voids']:
+                        nontrivial.add((site, tuple(tile_key(t) for t in q), fr.as_list()[3]))
+                    for clause, detail in r[:1]:
+                        tiling_failure(site, kind, q, fr, tol, plane, clause, detail,
+                                       {'seed': seed, 'case': case_no - 1}, tl['island'])
+            bump(hist['poly_max_tvertices_on_one_edge'], min(best_all, 8))
+            if best_all >= 3:
+                hist['poly_cases_with_run>=3'] += 1
+            hist['poly_seconds'] = round(hist['poly_seconds'] + time.time() - t0, 3)
+            continue
         tl = gen_tiling(rng, kind)
         if tl is None:
             bump(hist, 'generator_rejects')
@@ -886,7 +1679,7 @@ def replay(ctx, fl):
     else:
         s, ox, oy, th = [float.fromhex(x) for x in fl['frame_hex']]
         fr = Frame(s, ox, oy, th)
-        lps = [[tuple(p) for p in lp] for lp in fl['lat_polys']]
+        lps = [tile_from_json(lp) for lp in fl['lat_polys']]
         pl = None
         if fl.get('plane'):
             pl = (tuple(float.fromhex(c) for c in fl['plane'][0]),
